@@ -268,7 +268,7 @@ pub fn op1(op: &Op1, inp: &Seq) -> Option<Seq> {
 pub fn src(s: &Src) -> Option<Seq> {
   let done = |items: Vec<V>| Some(Seq { items, t: T::C });
   match s {
-    Src::Iter(items) => done(items.iter().map(|n| vi(*n)).collect()),
+    Src::Iter(items) | Src::IntoIter(items) => done(items.iter().map(|n| vi(*n)).collect()),
     Src::Create(script) => {
       let ns: Vec<Note> = script.iter().map(|n| n.note()).collect();
       Some(Seq::from_notes(&ns))
